@@ -32,7 +32,9 @@ def family_bdd(rng, count):
             s = rng.choice(srcs)
             tg = rng.choice([0] + [t for t in range(1, n + 1) if gc.wf_transition(c, s, t)] * 2)
             ev = rng.choice([1, 2])
-            gk, ga = ('xlt', rng.choice([1, 2, 3])) if rng.random() < 0.3 else ('none', 0)
+            r0 = rng.random()
+            # x-guards, and time guards (a composite step must run the interpreter after each of its sub-steps)
+            gk, ga = ('xlt', rng.choice([1, 2, 3])) if r0 < 0.3 else (('afterp', rng.choice([1, 2])) if r0 < 0.5 else ('none', 0))
             r_ = rng.random()
             snd = [(3, 0, rng.choice([0, 7, 8]))] if r_ < 0.3 else \
                 ([(3, 0, 0), (3, 0, 7)] if r_ < 0.45 else ([(3, 0, 7), (3, 0, 0)] if r_ < 0.55 else []))
@@ -92,7 +94,7 @@ def build_plain(c):
         added.add(s)
         pending.remove(s)
     for t in c['trans']:
-        g = 'x < %d' % t['ga'] if t['gk'] == 'xlt' else None
+        g = 'x < %d' % t['ga'] if t['gk'] == 'xlt' else ('after(%d)' % t['ga'] if t['gk'] == 'afterp' else None)
         sc.add_transition(Transition(names[t['src']], names[t['tgt']] if t['tgt'] else None,
                                      event='e%d' % t['ev'] if t['ev'] else None, guard=g, action=code(t['act'], tr=True)))
     return sc, names
